@@ -435,7 +435,10 @@ class Prop:
                 elif how == "relative":          # a relative path with a trailing slash
                     os.chdir(base)
                     arg = "root/"
-                tree = load_tree_from_fs(arg, sort=sort)
+                if how == "default" and sort:    # the documented default is sort=True
+                    tree = load_tree_from_fs(arg)
+                else:
+                    tree = load_tree_from_fs(arg, sort=sort)
             except Exception as e:  # noqa: BLE001  -- the scan of a readable directory must not raise
                 tree = None
                 load_err = f"{type(e).__name__}: {e}"
@@ -673,7 +676,7 @@ def _leaves(shape):
             yield t
 
 
-HOWS = ["path", "path", "pathobj", "relative", "explicit", "stream", "zip"]
+HOWS = ["path", "default", "pathobj", "relative", "explicit", "stream", "zip"]
 
 CORPUS = [
     # the names of the task statement: upper/lower case, '_', umlaut, "10" vs "9", files and folders mixed
